@@ -233,6 +233,14 @@ func check(c Case, st *rig.Stats) error {
 	cleaned := false // a Prefix.Clean happened: its translation prunes differently
 	outsideEver := false
 	for si, s := range c.Steps {
+		if outsideEver {
+			// the router has accepted a pattern outside the grammar the properties are stated for (a brace inside a parameter
+			// name, reachable here through facades over text no route can be built from): what Remove, Clean and a second
+			// registration do with such a pattern is not specified anywhere, and the translation of Prefix.Clean relies on
+			// Remove - nothing after this point is judged
+			classes = append(classes, "abandoned-after-a-pattern-outside-the-grammar-was-accepted")
+			break
+		}
 		when := fmt.Sprintf("after step %d %+v (program %+v)", si, s, c.Steps[:si+1])
 		o := objs[s.Obj]
 		var fp, dp any // recovered values
